@@ -8,16 +8,15 @@ from . import common, coqterm, gen, execgen, c01, sched
 from .c04 import fresh_schema_name
 from .coqterm import coq_list, coq_string, coq_option, coq_bool
 
-C08_FILES = ["Properties/C08.v", "Proofs/AsyncProofs.v", "Proofs/AsyncBridge.v", "Proofs/ExecRefine.v"]
+C08_FILES = ["Properties/C08.v", "Proofs/AsyncProofs.v", "Proofs/AsyncBridge.v", "Proofs/ExecRefine.v", "Proofs/MixedFields.v"]
 CONFIGS = [{"parent": p, "list": l, "args": a} for p in (True, False) for l in (True, False) for a in ("gather", "sync")]
 # per-field parent_concurrently / list_concurrently settings (a third of the fields concurrent, a third sequential, a
-# third left to the engine default), over both engine defaults: outside the Coq model's uniform configurations, checked
-# for identical data, started = finished and no double start
+# third left to the engine default), over both engine defaults; the model's configuration carries the same table
 MIXED_CONFIGS = [{"parent": p, "list": not p, "args": "gather", "mixed": m} for m, p in ((1, True), (2, False), (3, True))]
 
 
-def cfg_coq(cfg):
-    return "{| parent_concurrently := %s; list_concurrently := %s |}" % (coq_bool(cfg["parent"]), coq_bool(cfg["list"]))
+def cfg_coq(cfg, s=None):
+    return execgen.cfg_coq(cfg, s)
 
 
 def sites_coq(paths):
@@ -30,7 +29,7 @@ def sched_case_term(s, c, ast, run, cfg):
     return "(%s, %s, %s, %s, %s, %s, %s, %s, %s, %s)" % (
         gen.document_coq(ast), execgen.usercode_coq(s, rv),
         coq_option(coq_string(c["opname"]) if c.get("opname") else None), raw,
-        execgen.model_value(c.get("root")), cfg_coq(cfg), sites_coq(run["picks"]),
+        execgen.model_value(c.get("root")), cfg_coq(cfg, s), sites_coq(run["picks"]),
         execgen.observation_coq(run["response"], rv), sites_coq(run["starts"]), sites_coq(run["finishes"]))
 
 
@@ -117,6 +116,10 @@ HAND_MUTATIONS = [
     "mutation { ma { w sub { v w } } mb { w } mc }",
     "mutation { ml { v w } x: ma { w } mb { v } }",
     "mutation { ma { sub { v } w } mc mb { w } }",
+    # response keys repeated by a root fragment (spread / inline) with other keys in between: order = first appearance
+    "mutation { first: ma { v } second: mb { v } ...F third: mc } fragment F on Mutation { first: ma { w } }",
+    "mutation { one: ma { v } two: mb { w } ... on Mutation { one: ma { w } three: ml { v } } two: mb { v } }",
+    "mutation { a: mb { v } ...G b: ma { w } ...G } fragment G on Mutation { b: ma { v } a: mb { w } c: mc }",
 ]
 
 
@@ -217,8 +220,7 @@ def main(tier_, replay=None):
                 if r["problems"] or r["raised"]:
                     viol.append((s, c, r, cfg, r["problems"] + ([r["raised"]] if r["raised"] else [])))
                 datas.setdefault(data_key(r["response"]), (r, cfg))
-                if "mixed" not in cfg:
-                    items.append((c, ast, r, cfg))
+                items.append((c, ast, r, cfg))
             if len(datas) > 1:
                 (r1, cfg1), (r2, cfg2) = list(datas.values())[:2]
                 viol.append((s, c, r2, cfg2, ["data differs between schedules/configurations: %s under picks %r / config %r"
